@@ -37,7 +37,9 @@
 //! oracles: c08-panic (a blocking entry point panicked), c08-timeout (returned later than timeout + 1.5 s),
 //!          c07-blocking-true (flush returned true while items sent before it are still queued behind a stalled
 //!          receiver), c09-handback (send failed without handing the item back although the receiver exists),
-//!          c09-count (the blocking send moved `queue_full_truncated`, or `queue_full_blocked` by more than one)
+//!          c09-count (the blocking send moved `queue_full_truncated`, or `queue_full_blocked` by more than one),
+//!          c09-busy-wait (refill scenario: the blocked sender used more CPU time than 0.12·T — it did not wait, it spun,
+//!          registering a watcher per turn)
 
 use emit_batcher::{BatchError, Receiver, Sender};
 use hcommon::{Rng, Sexp, Stream, Tier};
@@ -262,7 +264,40 @@ enum Out {
     Panic,
 }
 
+/// CPU time the calling thread spent inside the last blocking call (Linux; 0 elsewhere): a caller that WAITS costs
+/// nothing, a caller that spins through its wait burns the whole of it (and, in `blocking_send`, registers one more
+/// `when_empty` watcher on the pending batch per turn — the batch grows without bound).
+static LAST_CALL_CPU_NS: std::sync::atomic::AtomicU64 = std::sync::atomic::AtomicU64::new(0);
+#[cfg(target_os = "linux")]
+fn thread_cpu_ns() -> u64 {
+    #[repr(C)]
+    struct Timespec {
+        sec: i64,
+        nsec: i64,
+    }
+    extern "C" {
+        fn clock_gettime(clk: i32, ts: *mut Timespec) -> i32;
+    }
+    const CLOCK_THREAD_CPUTIME_ID: i32 = 3;
+    let mut ts = Timespec { sec: 0, nsec: 0 };
+    if unsafe { clock_gettime(CLOCK_THREAD_CPUTIME_ID, &mut ts) } != 0 {
+        return 0;
+    }
+    ts.sec as u64 * 1_000_000_000 + ts.nsec as u64
+}
+#[cfg(not(target_os = "linux"))]
+fn thread_cpu_ns() -> u64 {
+    0
+}
+
 fn call(api: Api, op: OpK, sender: &Sender<Vec<u64>>, timeout: Duration) -> Out {
+    let cpu0 = thread_cpu_ns();
+    let out = call_inner(api, op, sender, timeout);
+    LAST_CALL_CPU_NS.store(thread_cpu_ns().saturating_sub(cpu0), std::sync::atomic::Ordering::SeqCst);
+    out
+}
+
+fn call_inner(api: Api, op: OpK, sender: &Sender<Vec<u64>>, timeout: Duration) -> Out {
     match (api, op) {
         (Api::Sync, OpK::Flush) => Out::Flush(emit_batcher::sync::blocking_flush(sender, timeout)),
         (Api::Tokio, OpK::Flush) => Out::Flush(emit_batcher::tokio::blocking_flush(sender, timeout)),
@@ -813,6 +848,12 @@ fn run_blocking_inner(line: &str) -> String {
         if !within {
             fails.push("c08-timeout");
             fails.push("c09-timeout"); // "hand it back to the caller when the timeout expires"
+        }
+        // the woken sender lost the race and waits again for the remaining 0.3·T: waiting costs (next to) no CPU time; a
+        // sender that spins through it burns all of it. The bound 0.12·T sits in between
+        let cpu = Duration::from_nanos(LAST_CALL_CPU_NS.load(std::sync::atomic::Ordering::SeqCst));
+        if cpu > timeout.mul_f64(0.12) {
+            fails.push("c09-busy-wait");
         }
         if out == Out::Panic {
             fails.push("c08-panic");
